@@ -1010,10 +1010,21 @@ fn expected_simple(w: &WordInfo, orig: &[ds::Horizontal], allowed: &[usize], rul
 ///      where no break is taken (pinned by the unit tests right_boundary_char_override_3..6).
 ///  (b) TeX 897 absorbs every implicit kern after the letters into the word and TeX 903 discards it; a
 ///      kern that the next font's left boundary put there is not produced again by the word's own run.
+///  (c) TeX 896 lets `ha` be the node before the first letter, implicit kerns included. If that node
+///      is an implicit kern and the first letter node is a ligature that includes the left boundary,
+///      TeX 903 (`found2`) keeps the kern and rebuilds the word from the boundary, which produces the
+///      boundary's kern a second time.
 fn tex_anomaly(orig: &[ds::Horizontal], words: &[WordInfo], rules: &[Rule], lex: &Lex, lmin: i32, rmin: i32) -> Option<&'static str> {
     for w in words {
         if !w.tried || permitted(w, lex, lmin, rmin).is_empty() {
             continue;
+        }
+        if w.first > 0 {
+            if let (ds::Horizontal::Kern(k), ds::Horizontal::Ligature(l)) = (&orig[w.first - 1], &orig[w.first]) {
+                if k.kind == ds::KernKind::Normal && l.includes_left_boundary {
+                    return Some("TeX anomaly: implicit kern before a word that starts with a left-boundary ligature is produced twice");
+                }
+            }
         }
         if matches!(orig[w.last], ds::Horizontal::Kern(_)) {
             let next_char = match orig.get(w.last + 1) {
